@@ -19,6 +19,18 @@ claimed={
   text='Exhaustive-by-construction runtime monitor of Check: 10 node kinds x 3 positions x every subset (size <=3 quick, <=4 thorough) of the rule vocabulary plus an unknown name x parameter variants x ALL permutations of the written order (1.3e6 Check calls quick); order-independence is judged real-vs-real, the verdict against an applicability-matrix oracle written from the statement; plus an accept-biased family over applicable rules and every rule written twice.',
   note='Trusts the matrix oracle (internal/model/checkoracle.go); enum on containers and enum+const are Unspecified; error codes among rejecting permutations are recorded, not judged.',
   technique='matrix reference oracle + permutation (metamorphic) monitor over enumerated rule sets', ref='7 (C08)'),
+ 'C09': dict(category='exploration',
+  text='Runtime monitor over enumerated and random type graphs: ALL graphs over 2 types (+1 missing name) x 3 root forms and (thorough) ALL graphs over 3 types from a catalogue of 14 type bodies covering every reference form, random graphs over 4..6 types; Check verdict compared with a least-fixpoint oracle (finite inhabitant along required references; missing types; allOf parents), UsedUserTypes compared as a set with the names the root text references, error must name a missing type when that is the only defect; on every accepted graph Example and Validate (documents unrolled along the cycles to depth 1, 3, 40) must return - a stack overflow or hang is caught by per-unit crash/hang isolation.',
+  note='Two known findings with narrowly stated class predicates decided on the model (not on library behaviour): required cycles through >=2 distinct types are accepted (pinned by the repository own TestSchema_Example), and exponential validator work for ambiguous nested unions (those documents are kept out of the depth-40 monitor; the canonical witness is probed every run by allocation counts, not time).',
+  technique='reference-model (least fixpoint) monitor over enumerated type graphs + bounded-progress termination monitor with crash isolation', ref='7 (C09)'),
+ 'C14': dict(category='exploration',
+  text='Runtime monitor of the Len/Check prefix relation: accepted schema texts (generator output in several styles, ending in every token class) x separators x directive-like trailers chosen so that the trailer cannot continue the text; Len must equal len(rtrim(S)), the prefix must pass Check with the same AST and verdicts; texts cut inside a token must make Len fail; same for JSON documents (cross-checked against encoding/json Decoder.InputOffset), enum rules and regex types.',
+  note='Positive cases are generated only where the statement clearly applies (classification by an independent small lexer of the surface syntax, internal/props/c14_lex.go); comments after the last token and blank-only inputs are not generated.',
+  technique='metamorphic/differential monitor (Len vs Check vs AST on prefix) over generated embeddings', ref='7 (C14)'),
+ 'C18': dict(category='exploration',
+  text='Differential runtime monitor: enum value lists of all scalar kinds with kind-colliding texts rendered as named rules in many comment layouts vs the same list inline; regex patterns (table + printable-ASCII RE2 grammar incl. escaped slashes) as /P/ types vs inline {regex: P}; verdict(named) == verdict(inline) == model oracle / Go regexp for every probe; Values()/GetAST() literal order; duplicates; Pattern(), Example() matches P, Len() == len("/P/").',
+  note='Comment attachment is compared only where unambiguous; numerically equal but differently spelled enum numbers are Unspecified for the oracle (the named-vs-inline differential still applies).',
+  technique='real-vs-real differential monitor (named vs inline) + reference oracle', ref='7 (C18)'),
  'C10': dict(category='exploration',
   text='Two-level runtime monitor: (unit, via overlay hook) every RFC 8259 numeral of <=7 characters over {-,0,1,5,9,.,e,E,+} has its normalised expansion, fractional length and integer/float class compared with an independent big.Rat model, all ordered pairs of short numerals and random long numerals (<=60 digits, |exp|<=400, x vs x+-ulp vs re-spelling) have Cmp compared with the sign of the rational difference; (API, no hook) min/max/exclusive/precision schemas x document numerals of every form. Held on 7.8e6 (quick) / 6.8e7 (thorough) comparisons.',
   note='Reference = internal/ref/num (unit-tested against big.Rat.SetString). One known finding: numerals -?0[eE]digits are not recognised (pinned by the repository own tests), listed in known_findings.txt as a narrowly stated input class.',
